@@ -46,6 +46,12 @@ impl<H: HashChain> HssPrivateKey<H> {
 
         let mut current_seed = private_key.generate_root_seed_and_lms_tree_identifier();
         let parameters = private_key.compressed_parameter.to::<H>()?;
+        if !private_key
+            .compressed_used_leafs_indexes
+            .is_in_range(&parameters)
+        {
+            return Err(());
+        }
         let used_leafs_indexes = private_key.compressed_used_leafs_indexes.to(&parameters);
 
         let lms_private_key = LmsPrivateKey {
@@ -129,11 +135,11 @@ impl<H: HashChain> HssPrivateKey<H> {
             // account. Thus, the top tree total count needs to be multiplied with free leafs of
             // the current level.
             for subtree_total_lmots_keys in &trees_total_lmots_keys {
-                free_lmots_keys *= subtree_total_lmots_keys;
+                free_lmots_keys = free_lmots_keys.saturating_mul(*subtree_total_lmots_keys);
             }
             trees_total_lmots_keys.push(total_lmots_keys);
 
-            lifetime += free_lmots_keys;
+            lifetime = lifetime.saturating_add(free_lmots_keys);
         }
         lifetime
     }
